@@ -1,161 +1,206 @@
 ------------------------------ MODULE MpmcChan ------------------------------
-(* DRAFT (round 0).  src/sync/mpmc.rs over src/sync/semphore.rs (no time-outs here).
-   One sender that sends NMsg messages and then drops (the *last* sender), a set of
-   receivers each doing one blocking recv().  Blocker = AbsBlocker token. *)
+(* Literal model of src/sync/mpmc.rs (SegQueue + Semphore): send / recv / try_recv / recv_timeout,
+   clone and drop of Sender and Receiver, several receivers.  pc[a] = name of the verification point
+   the actor is stopped at; labels without a dot are internal.  The SegQueue is an atomic FIFO and
+   the Semphore is its contract (C10): a counter plus a FIFO of blocked waiters; post() hands the
+   permit to the first blocked waiter, a timed wait gives up at Tick (virtual time jumps to the
+   earliest deadline).  A blocked receiver is "sem.blocked" and continues at mpmc.recv.pop.
+
+   FixM = FALSE is the pinned tree:
+     - the last Sender posts "until the value is positive" (wakes the receivers blocked right now
+       and leaves one permit);
+     - try_recv, after a failed try_wait, reports Disconnected as soon as it reads tx_ports = 0;
+     - a receiver that consumed a permit and finds no data reports Disconnected and keeps the permit.
+   That loses a message (try_recv says Disconnected while one is queued: defect F4b) and strands a
+   receiver that passed its tx_ports check before the last sender left (defect F4).
+   FixM = TRUE is the repaired protocol: the last Sender posts exactly one surplus permit, a receiver
+   that finds no data behind a permit passes the permit on, try_recv re-tries the permit after reading
+   tx_ports = 0.                                                                           *)
 EXTENDS Integers, FiniteSets, Sequences, TLC
 
-CONSTANTS Receivers, NMsg,
-          RepostOnDisconnect,   \* FALSE = code as written; TRUE = candidate repair (F4)
-          RetryOnDisc,          \* FALSE = as written; TRUE = candidate repair: try_recv re-tries
-                                \* the permit once after reading tx_ports = 0 (as mpsc re-pops)
-          DropPostOnce          \* FALSE = `while get_value()==0 {post}` as written;
-                                \* TRUE  = candidate repair: the last sender posts exactly once
+CONSTANTS Actors, Receivers, Prog, Dur, FixM
 
-VARIABLES queue, cnt, toWake, tx,            \* channel + semaphore
-          token, unparked, release,          \* per receiver blocker
-          pcS, sent, w, retS,                \* sender
-          pcR, ret, wr, retR                 \* receivers
+VARIABLES queue, sem, semq, txPorts, rxPorts,
+          pc, ip, nsent, rret, retried,
+          deadline, now, timerHost,
+          pushed, sentOk, got, dropped, discQ
+vars == <<queue, sem, semq, txPorts, rxPorts, pc, ip, nsent, rret, retried, deadline, now, timerHost,
+          pushed, sentOk, got, dropped, discQ>>
 
-vars == <<queue, cnt, toWake, tx, token, unparked, release, pcS, sent, w, retS, pcR, ret, wr, retR>>
-NoR == "none"
-Disconnected == -1
-Unreachable == -2
+Senders == Actors \ Receivers
+Op(a) == Prog[a][ip[a]]
+FirstPc(op) == CASE op = "send" -> "mpmc.send.load_rx" [] op = "clone" -> "mpmc.clone_tx.inc"
+                 [] op = "drop" -> "mpmc.drop_tx.dec" [] op = "rdrop" -> "mpmc.drop_rx.dec"
+                 [] OTHER -> "mpmc.try.wait"
+StartPc(a) == IF Len(Prog[a]) = 0 THEN "done" ELSE FirstPc(Prog[a][1])
 
 Init ==
-  /\ queue = <<>> /\ cnt = 0 /\ toWake = <<>> /\ tx = 1
-  /\ token = [r \in Receivers |-> FALSE] /\ unparked = [r \in Receivers |-> FALSE]
-  /\ release = [r \in Receivers |-> FALSE]
-  /\ pcS = IF NMsg > 0 THEN "send.push" ELSE "drop.dec"
-  /\ sent = 0 /\ w = NoR /\ retS = "none"
-  /\ pcR = [r \in Receivers |-> "recv.try"] /\ ret = [r \in Receivers |-> 0]
-  /\ wr = [r \in Receivers |-> NoR] /\ retR = [r \in Receivers |-> "none"]
+  /\ queue = <<>> /\ sem = 0 /\ semq = <<>>
+  /\ txPorts = Cardinality(Senders) /\ rxPorts = Cardinality(Receivers)
+  /\ ip = [a \in Actors |-> 1] /\ pc = [a \in Actors |-> StartPc(a)]
+  /\ nsent = [a \in Actors |-> 0]
+  /\ rret = [a \in Actors |-> "none"]
+  /\ retried = [a \in Actors |-> FALSE]
+  /\ deadline = [a \in Actors |-> 0] /\ now = 0 /\ timerHost = "none"
+  /\ pushed = {} /\ sentOk = {} /\ got = [a \in Actors |-> <<>>] /\ dropped = {}
+  /\ discQ = [a \in Actors |-> 0]
 
-UNCH_R == UNCHANGED <<pcR, ret, wr, retR>>
-UNCH_S == UNCHANGED <<pcS, sent, w, retS>>
-UNCH_B == UNCHANGED <<token, unparked, release>>
+Goto(a, l) == pc' = [pc EXCEPT ![a] = l]
+\* values in the queue that no other receiver has already claimed with a permit (a receiver between
+\* its successful permit and its pop will take one of them)
+Claims(a) == Cardinality({b \in Receivers \ {a} : pc[b] \in {"mpmc.try.pop", "mpmc.recv.pop"}})
+Unclaimed(a) == IF Len(queue) > Claims(a) THEN Len(queue) - Claims(a) ELSE 0
+UNCH_Q == UNCHANGED <<queue, txPorts, rxPorts>>
+UNCH_S == UNCHANGED <<sem, semq>>
+UNCH_T == UNCHANGED <<deadline, now, timerHost>>
+UNCH_H == UNCHANGED <<pushed, sentOk, got, dropped, discQ>>
+LeaveTimer(a) == timerHost' = IF timerHost = a THEN "none" ELSE timerHost
 
-(* ---- the wake chain (post -> wakeup_one -> maybe post again), for the sender ---- *)
-SPush ==
-  /\ pcS = "send.push" /\ queue' = Append(queue, sent + 1) /\ sent' = sent + 1
-  /\ pcS' = "post.inc" /\ retS' = (IF sent + 1 < NMsg THEN "send.push" ELSE "drop.dec")
-  /\ UNCHANGED <<cnt, toWake, tx, w>> /\ UNCH_B /\ UNCH_R
-SPostInc ==
-  /\ pcS = "post.inc" /\ cnt' = cnt + 1
-  /\ pcS' = IF cnt < 0 THEN "wake.pop" ELSE retS
-  /\ UNCHANGED <<queue, toWake, tx, sent, w, retS>> /\ UNCH_B /\ UNCH_R
-SWakePop ==
-  /\ pcS = "wake.pop" /\ toWake # <<>>
-  /\ w' = Head(toWake) /\ toWake' = Tail(toWake) /\ pcS' = "wake.unpark"
-  /\ UNCHANGED <<queue, cnt, tx, sent, retS>> /\ UNCH_B /\ UNCH_R
-SWakeUnpark ==
-  /\ pcS = "wake.unpark" /\ token' = [token EXCEPT ![w] = TRUE] /\ pcS' = "wake.set_unparked"
-  /\ UNCHANGED <<queue, cnt, toWake, tx, unparked, release, sent, w, retS>> /\ UNCH_R
-SWakeSetUnparked ==
-  /\ pcS = "wake.set_unparked" /\ unparked' = [unparked EXCEPT ![w] = TRUE] /\ pcS' = "wake.takerel"
-  /\ UNCHANGED <<queue, cnt, toWake, tx, token, release, sent, w, retS>> /\ UNCH_R
-SWakeTakeRel ==
-  /\ pcS = "wake.takerel" /\ release' = [release EXCEPT ![w] = FALSE]
-  /\ pcS' = IF release[w] THEN "post.inc" ELSE retS
-  /\ UNCHANGED <<queue, cnt, toWake, tx, token, unparked, sent, w, retS>> /\ UNCH_R
-(* drop_tx of the last sender: while sem.get_value() == 0 { sem.post() } *)
-SDropDec ==
-  /\ pcS = "drop.dec" /\ tx' = tx - 1 /\ pcS' = "drop.get_value"
-  /\ UNCHANGED <<queue, cnt, toWake, sent, w, retS>> /\ UNCH_B /\ UNCH_R
-SDropGetValue ==
-  /\ pcS = "drop.get_value"
-  /\ IF DropPostOnce
-       THEN pcS' = "post.inc" /\ retS' = "done"
-       ELSE IF cnt <= 0 THEN pcS' = "post.inc" /\ retS' = "drop.get_value"
-                        ELSE pcS' = "done" /\ UNCHANGED retS
-  /\ UNCHANGED <<queue, cnt, toWake, tx, sent, w>> /\ UNCH_B /\ UNCH_R
+\* Semphore::post(), atomically: the first blocked waiter gets the permit, else the value grows.
+\* `base` carries the other pc updates of the step.
+Post(base) ==
+  IF semq = <<>>
+    THEN sem' = sem + 1 /\ semq' = semq /\ pc' = base /\ UNCHANGED deadline
+    ELSE LET h == Head(semq) IN
+         /\ sem' = sem /\ semq' = Tail(semq)
+         /\ pc' = [base EXCEPT ![h] = "mpmc.recv.pop"]
+         /\ deadline' = [deadline EXCEPT ![h] = 0]
 
-(* ---- receivers ---- *)
-GotoR(r, l) == pcR' = [pcR EXCEPT ![r] = l]
-RTry(r) ==        \* try_recv: sem.try_wait (dec-if-positive) else look at tx_ports
-  /\ pcR[r] = "recv.try"
-  /\ IF cnt > 0 THEN cnt' = cnt - 1 /\ GotoR(r, "recv.pop")
-                ELSE UNCHANGED cnt /\ GotoR(r, "recv.load_tx")
-  /\ UNCHANGED <<queue, toWake, tx, ret, wr, retR>> /\ UNCH_B /\ UNCH_S
-RLoadTx(r) ==
-  /\ pcR[r] = "recv.load_tx"
-  /\ IF tx = 0
-       THEN IF RetryOnDisc THEN UNCHANGED ret /\ GotoR(r, "recv.retry")
-                           ELSE ret' = [ret EXCEPT ![r] = Disconnected] /\ GotoR(r, "done")
-       ELSE UNCHANGED ret /\ GotoR(r, "sem.try")
-  /\ UNCHANGED <<queue, cnt, toWake, tx, wr, retR>> /\ UNCH_B /\ UNCH_S
-RRetry(r) ==
-  /\ pcR[r] = "recv.retry"
-  /\ IF cnt > 0 THEN cnt' = cnt - 1 /\ GotoR(r, "recv.pop") /\ UNCHANGED ret
-                ELSE UNCHANGED cnt /\ ret' = [ret EXCEPT ![r] = Disconnected] /\ GotoR(r, "done")
-  /\ UNCHANGED <<queue, toWake, tx, wr, retR>> /\ UNCH_B /\ UNCH_S
-RSemTry(r) ==     \* Semphore::wait -> try_wait first
-  /\ pcR[r] = "sem.try"
-  /\ IF cnt > 0 THEN cnt' = cnt - 1 /\ GotoR(r, "recv.pop")
-                ELSE UNCHANGED cnt /\ GotoR(r, "sem.push")
-  /\ UNCHANGED <<queue, toWake, tx, ret, wr, retR>> /\ UNCH_B /\ UNCH_S
-RSemPush(r) ==
-  /\ pcR[r] = "sem.push" /\ toWake' = Append(toWake, r) /\ GotoR(r, "sem.dec")
-  /\ UNCHANGED <<queue, cnt, tx, ret, wr, retR>> /\ UNCH_B /\ UNCH_S
-RSemDec(r) ==
-  /\ pcR[r] = "sem.dec" /\ cnt' = cnt - 1
-  /\ IF cnt > 0 THEN GotoR(r, "rwake.pop") /\ retR' = [retR EXCEPT ![r] = "sem.park"]
-                ELSE GotoR(r, "sem.park") /\ UNCHANGED retR
-  /\ UNCHANGED <<queue, toWake, tx, ret, wr>> /\ UNCH_B /\ UNCH_S
-RWakePop(r) ==
-  /\ pcR[r] = "rwake.pop" /\ toWake # <<>>
-  /\ wr' = [wr EXCEPT ![r] = Head(toWake)] /\ toWake' = Tail(toWake) /\ GotoR(r, "rwake.unpark")
-  /\ UNCHANGED <<queue, cnt, tx, ret, retR>> /\ UNCH_B /\ UNCH_S
-RWakeUnpark(r) ==
-  /\ pcR[r] = "rwake.unpark" /\ token' = [token EXCEPT ![wr[r]] = TRUE] /\ GotoR(r, "rwake.set_unparked")
-  /\ UNCHANGED <<queue, cnt, toWake, tx, unparked, release, ret, wr, retR>> /\ UNCH_S
-RWakeSetUnparked(r) ==
-  /\ pcR[r] = "rwake.set_unparked" /\ unparked' = [unparked EXCEPT ![wr[r]] = TRUE]
-  /\ GotoR(r, "rwake.takerel")
-  /\ UNCHANGED <<queue, cnt, toWake, tx, token, release, ret, wr, retR>> /\ UNCH_S
-RWakeTakeRel(r) ==
-  /\ pcR[r] = "rwake.takerel" /\ release' = [release EXCEPT ![wr[r]] = FALSE]
-  /\ GotoR(r, IF release[wr[r]] THEN "rpost.inc" ELSE retR[r])
-  /\ UNCHANGED <<queue, cnt, toWake, tx, token, unparked, ret, wr, retR>> /\ UNCH_S
-RPostInc(r) ==    \* a post issued by a receiver (pass-it-on / repair)
-  /\ pcR[r] = "rpost.inc" /\ cnt' = cnt + 1
-  /\ GotoR(r, IF cnt < 0 THEN "rwake.pop" ELSE retR[r])
-  /\ UNCHANGED <<queue, toWake, tx, ret, wr, retR>> /\ UNCH_B /\ UNCH_S
-RPark(r) ==
-  /\ pcR[r] = "sem.park" /\ token[r]
-  /\ token' = [token EXCEPT ![r] = FALSE] /\ GotoR(r, "recv.pop")
-  /\ UNCHANGED <<queue, cnt, toWake, tx, unparked, release, ret, wr, retR>> /\ UNCH_S
-RPop(r) ==
-  /\ pcR[r] = "recv.pop"
+(* ------------------------------- senders ------------------------------- *)
+SendLoadRx(a) ==
+  /\ pc[a] = "mpmc.send.load_rx"
+  /\ Goto(a, IF rxPorts = 0 THEN "next" ELSE "mpmc.send.push")
+  /\ UNCHANGED <<ip, nsent, rret, retried>> /\ UNCH_Q /\ UNCH_S /\ UNCH_T /\ UNCH_H
+\* queue.push(t); sem.post()   (no point in between)
+SendPush(a) ==
+  /\ pc[a] = "mpmc.send.push"
+  /\ LET m == <<a, nsent[a] + 1>> IN
+       queue' = Append(queue, m) /\ pushed' = pushed \cup {m} /\ sentOk' = sentOk \cup {m}
+  /\ nsent' = [nsent EXCEPT ![a] = @ + 1]
+  /\ Post([pc EXCEPT ![a] = "next"])
+  /\ UNCHANGED <<txPorts, rxPorts, ip, rret, retried, now, timerHost, got, dropped, discQ>>
+CloneTx(a) ==
+  /\ pc[a] = "mpmc.clone_tx.inc" /\ txPorts' = txPorts + 1 /\ Goto(a, "next")
+  /\ UNCHANGED <<queue, rxPorts, ip, nsent, rret, retried>> /\ UNCH_S /\ UNCH_T /\ UNCH_H
+DropTxDec(a) ==
+  /\ pc[a] = "mpmc.drop_tx.dec"
+  /\ txPorts' = txPorts - 1
+  /\ Goto(a, IF txPorts = 1 THEN "mpmc.drop_tx.get" ELSE "next")
+  /\ UNCHANGED <<queue, rxPorts, ip, nsent, rret, retried>> /\ UNCH_S /\ UNCH_T /\ UNCH_H
+\* the last Sender.  As written: `while sem.get_value() == 0 { sem.post() }` - every blocked waiter is
+\* woken and one permit is left; repaired: one unconditional post()
+DropTxLoop(a) ==
+  /\ pc[a] = "mpmc.drop_tx.get"
+  /\ IF FixM THEN Post([pc EXCEPT ![a] = "next"])               \* repaired: exactly one surplus permit
+     ELSE IF sem > 0 THEN UNCH_S /\ Goto(a, "next") /\ UNCHANGED deadline
+     ELSE /\ sem' = 1 /\ semq' = <<>>
+          /\ pc' = [x \in Actors |-> IF x = a THEN "next" ELSE IF \E i \in DOMAIN semq : semq[i] = x THEN "mpmc.recv.pop" ELSE pc[x]]
+          /\ deadline' = [x \in Actors |-> IF \E i \in DOMAIN semq : semq[i] = x THEN 0 ELSE deadline[x]]
+  /\ UNCHANGED <<ip, nsent, rret, retried, now, timerHost>> /\ UNCH_Q /\ UNCH_H
+
+(* ------------------------------- receivers ------------------------------- *)
+Blocking(a) == Op(a) \in {"recv", "trecv"}
+\* try_recv(): try_wait
+TryWait(a) ==
+  /\ pc[a] = "mpmc.try.wait"
+  /\ IF sem > 0 THEN sem' = sem - 1 /\ Goto(a, "mpmc.try.pop")
+                ELSE UNCHANGED sem /\ Goto(a, "mpmc.try.load_tx")
+  /\ retried' = [retried EXCEPT ![a] = FALSE]
+  /\ UNCHANGED <<semq, ip, nsent, rret>> /\ UNCH_Q /\ UNCH_T /\ UNCH_H
+TryLoadTx(a) ==
+  /\ pc[a] = "mpmc.try.load_tx"
+  /\ IF txPorts # 0
+       THEN /\ rret' = [rret EXCEPT ![a] = "Empty"] /\ UNCHANGED <<discQ, retried>>
+            /\ Goto(a, IF Blocking(a) THEN "mpmc.recv.wait" ELSE "next")
+       ELSE IF FixM /\ ~retried[a]
+              THEN Goto(a, "mpmc.try.rewait") /\ UNCHANGED <<rret, discQ, retried>>
+              ELSE /\ rret' = [rret EXCEPT ![a] = "Disconnected"] /\ discQ' = [discQ EXCEPT ![a] = Unclaimed(a)]
+                   /\ Goto(a, "next") /\ UNCHANGED retried
+  /\ UNCHANGED <<ip, nsent, pushed, sentOk, got, dropped>> /\ UNCH_Q /\ UNCH_S /\ UNCH_T
+\* repaired code only: no sender is left, so every message has been posted: try the permit again
+TryRewait(a) ==
+  /\ pc[a] = "mpmc.try.rewait"
+  /\ IF sem > 0 THEN sem' = sem - 1 /\ Goto(a, "mpmc.try.pop") /\ UNCHANGED <<rret, discQ>>
+                ELSE /\ UNCHANGED sem /\ rret' = [rret EXCEPT ![a] = "Disconnected"]
+                     /\ discQ' = [discQ EXCEPT ![a] = Unclaimed(a)] /\ Goto(a, "next")
+  /\ retried' = [retried EXCEPT ![a] = TRUE]
+  /\ UNCHANGED <<semq, ip, nsent, pushed, sentOk, got, dropped>> /\ UNCH_Q /\ UNCH_T
+\* behind a permit: pop; no data means the permit was the disconnect signal
+PopBehindPermit(a, here) ==
+  /\ pc[a] = here
   /\ IF queue # <<>>
-       THEN /\ queue' = Tail(queue) /\ ret' = [ret EXCEPT ![r] = Head(queue)]
-            /\ GotoR(r, "done") /\ UNCHANGED retR
-       ELSE /\ UNCHANGED queue
-            /\ IF tx = 0
-                 THEN /\ ret' = [ret EXCEPT ![r] = Disconnected]
-                      /\ IF RepostOnDisconnect
-                           THEN GotoR(r, "rpost.inc") /\ retR' = [retR EXCEPT ![r] = "done"]
-                           ELSE GotoR(r, "done") /\ UNCHANGED retR
-                 ELSE ret' = [ret EXCEPT ![r] = Unreachable] /\ GotoR(r, "done") /\ UNCHANGED retR
-  /\ UNCHANGED <<cnt, toWake, tx, wr>> /\ UNCH_B /\ UNCH_S
+       THEN /\ queue' = Tail(queue) /\ got' = [got EXCEPT ![a] = Append(@, Head(queue))]
+            /\ rret' = [rret EXCEPT ![a] = "Ok"] /\ Goto(a, "next") /\ UNCH_S /\ UNCHANGED <<discQ, deadline>>
+       ELSE /\ UNCHANGED <<queue, got>>
+            /\ rret' = [rret EXCEPT ![a] = IF txPorts = 0 THEN "Disconnected" ELSE "unreachable"]
+            /\ discQ' = [discQ EXCEPT ![a] = Unclaimed(a)]
+            /\ IF FixM THEN Post([pc EXCEPT ![a] = "next"])            \* pass the permit on
+                       ELSE Goto(a, "next") /\ UNCH_S /\ UNCHANGED deadline
+  /\ UNCHANGED <<txPorts, rxPorts, ip, nsent, retried, now, timerHost, pushed, sentOk, dropped>>
+TryPop(a) == PopBehindPermit(a, "mpmc.try.pop")
+RecvPop(a) == PopBehindPermit(a, "mpmc.recv.pop")
+\* recv / recv_timeout: sem.wait() / sem.wait_timeout()
+RecvWait(a) ==
+  /\ pc[a] = "mpmc.recv.wait"
+  /\ IF sem > 0
+       THEN sem' = sem - 1 /\ Goto(a, "mpmc.recv.pop") /\ UNCHANGED <<semq, deadline, timerHost>>
+       ELSE /\ semq' = Append(semq, a) /\ Goto(a, "sem.blocked") /\ UNCHANGED sem
+            /\ deadline' = [deadline EXCEPT ![a] = IF Op(a) = "trecv" THEN now + Dur[a] ELSE 0]
+            /\ LeaveTimer(a)
+  /\ UNCHANGED <<ip, nsent, rret, retried, now>> /\ UNCH_Q /\ UNCH_H
+DropRxDec(a) ==
+  /\ pc[a] = "mpmc.drop_rx.dec"
+  /\ rxPorts' = rxPorts - 1
+  /\ IF rxPorts = 1 THEN dropped' = dropped \cup {queue[i] : i \in DOMAIN queue} /\ queue' = <<>>
+                    ELSE UNCHANGED <<dropped, queue>>
+  /\ Goto(a, "next")
+  /\ UNCHANGED <<txPorts, ip, nsent, rret, retried, pushed, sentOk, got, discQ>> /\ UNCH_S /\ UNCH_T
 
-AllOver == pcS = "done" /\ \A r \in Receivers : pcR[r] = "done"
-Stutter == AllOver /\ UNCHANGED vars
-Next ==
-  \/ SPush \/ SPostInc \/ SWakePop \/ SWakeUnpark \/ SWakeSetUnparked \/ SWakeTakeRel
-  \/ SDropDec \/ SDropGetValue
-  \/ \E r \in Receivers : RTry(r) \/ RLoadTx(r) \/ RRetry(r) \/ RSemTry(r) \/ RSemPush(r) \/ RSemDec(r)
-        \/ RWakePop(r) \/ RWakeUnpark(r) \/ RWakeSetUnparked(r) \/ RWakeTakeRel(r)
-        \/ RPostInc(r) \/ RPark(r) \/ RPop(r)
-  \/ Stutter
+NextOp(a) ==
+  /\ pc[a] = "next"
+  /\ IF ip[a] < Len(Prog[a])
+       THEN ip' = [ip EXCEPT ![a] = ip[a] + 1] /\ Goto(a, FirstPc(Prog[a][ip[a] + 1])) /\ UNCHANGED timerHost
+       ELSE UNCHANGED ip /\ Goto(a, "done") /\ LeaveTimer(a)
+  /\ UNCHANGED <<nsent, rret, retried, deadline, now>> /\ UNCH_Q /\ UNCH_S /\ UNCH_H
+
+\* the timed waiter with the earliest deadline gives up (wait_timeout returns false -> Timeout)
+TimedBlocked == {a \in Receivers : pc[a] = "sem.blocked" /\ deadline[a] > 0}
+Tick ==
+  /\ TimedBlocked # {} /\ timerHost = "none"
+  /\ LET t == CHOOSE t \in {deadline[a] : a \in TimedBlocked} : \A a \in TimedBlocked : t <= deadline[a]
+         v == CHOOSE a \in TimedBlocked : deadline[a] = t IN
+       /\ now' = t /\ timerHost' = v
+       /\ semq' = SelectSeq(semq, LAMBDA x : x # v)
+       /\ rret' = [rret EXCEPT ![v] = "Timeout"] /\ Goto(v, "next")
+       /\ deadline' = [deadline EXCEPT ![v] = 0]
+  /\ UNCHANGED <<sem, ip, nsent, retried>> /\ UNCH_Q /\ UNCH_H
+
+Step(a) == \/ SendLoadRx(a) \/ SendPush(a) \/ CloneTx(a) \/ DropTxDec(a) \/ DropTxLoop(a)
+           \/ TryWait(a) \/ TryLoadTx(a) \/ TryRewait(a) \/ TryPop(a) \/ RecvPop(a) \/ RecvWait(a) \/ DropRxDec(a)
+Internal(a) == NextOp(a)
+InternalPcs == {"next"}
+Obs(a) == -1
+Cancel(a) == FALSE /\ UNCHANGED vars
+
+Finished(a) == pc[a] \in {"done", "dead"}
+\* a recv() while senders are alive and silent blocks for ever by specification
+LegitBlocked(a) == pc[a] = "sem.blocked" /\ deadline[a] = 0 /\ txPorts > 0
+Terminal == (\A a \in Actors : Finished(a) \/ LegitBlocked(a)) /\ UNCHANGED vars
+Next == (\E a \in Actors : Step(a) \/ Internal(a)) \/ Tick \/ Terminal
 Spec == Init /\ [][Next]_vars
-
-Got == {ret[r] : r \in Receivers} \cap (1..NMsg)
-NoUnreachable == \A r \in Receivers : ret[r] # Unreachable
-DeliveredOnce == \A r1, r2 \in Receivers : (r1 # r2 /\ ret[r1] \in 1..NMsg) => ret[r1] # ret[r2]
-\* drain first: nobody is told Disconnected while a message is still queued for good
-Min(a, b) == IF a < b THEN a ELSE b
-DrainThenDisconnected ==
-  AllOver => /\ Cardinality(Got) = Min(NMsg, Cardinality(Receivers))
-             /\ \A r \in Receivers : ret[r] \in Got \/ ret[r] = Disconnected
-\* NoHangAfterLastSender = TLC deadlock check (a receiver parked for ever is a deadlock)
+-----------------------------------------------------------------------------
+AllGot == UNION {{got[a][i] : i \in DOMAIN got[a]} : a \in Actors}
+DeliveredOnce  == /\ \A a \in Actors : Cardinality({got[a][i] : i \in DOMAIN got[a]}) = Len(got[a])
+                  /\ \A a, b \in Actors : a # b => {got[a][i] : i \in DOMAIN got[a]} \cap {got[b][i] : i \in DOMAIN got[b]} = {}
+                  /\ AllGot \cap dropped = {}
+NoInvented     == AllGot \subseteq pushed
+PerSenderOrder == \A a \in Actors : \A i, j \in DOMAIN got[a] :
+                    (i < j /\ got[a][i][1] = got[a][j][1]) => got[a][i][2] < got[a][j][2]
+\* Disconnected only once every queued value has been taken or claimed by a receiver that holds its
+\* permit, and every sender is gone; never the unreachable!() arm
+DrainThenDisconnected == \A a \in Actors : /\ rret[a] # "unreachable"
+                                           /\ (rret[a] = "Disconnected" => (discQ[a] = 0 /\ txPorts = 0))
+NothingLost == (\A a \in Actors : Finished(a)) =>
+                 (sentOk \subseteq (AllGot \cup dropped \cup {queue[i] : i \in DOMAIN queue}))
+\* NoHangAfterLastSender / WokenBySend: deadlock-freedom (Terminal is the only legitimate rest)
 =============================================================================
